@@ -160,25 +160,20 @@ func (p *SyncedPool) Flush(id []byte) error {
 
 func (p *SyncedPool) flush(id []byte) error {
 	queuedDropsList := p.popQueuedDrops()
-	// close and drop DBs
+	// detach the DBs which are queued for dropping
+	toDrop := make([]*closeDropWrapped, 0, len(queuedDropsList))
 	for _, name := range queuedDropsList {
 		w := p.wrappers[name]
 		delete(p.wrappers, name)
 		if w.Flushable == nil {
 			continue
 		}
-		err := w.Flushable.RealClose()
-		if err != nil {
-			return err
-		}
-		db := w.Flushable.underlying
-		if db == nil {
-			continue
-		}
-		db.Drop()
+		toDrop = append(toDrop, w.Flushable)
 	}
 
 	// write dirty flags
+	// Note: it's done before the queued DBs are dropped. Otherwise, a crash right after a drop would leave
+	// the remaining DBs with a clean mark of the previous flush, although a DB of that flush is gone
 	for _, w := range p.wrappers {
 		db, err := w.Flushable.InitUnderlyingDb()
 		if err != nil {
@@ -189,6 +184,30 @@ func (p *SyncedPool) flush(id []byte) error {
 		if err != nil {
 			return err
 		}
+	}
+
+	// the DBs to drop get the dirty flag too: they are dropped one by one
+	for _, f := range toDrop {
+		if f.underlying == nil || f.underlying == devnull {
+			continue
+		}
+		err := MarkFlushID(f.underlying, p.flushIDKey, DirtyPrefix, id)
+		if err != nil {
+			return err
+		}
+	}
+
+	// close and drop DBs
+	for _, f := range toDrop {
+		err := f.RealClose()
+		if err != nil {
+			return err
+		}
+		db := f.underlying
+		if db == nil {
+			continue
+		}
+		db.Drop()
 	}
 
 	// flush data
